@@ -295,6 +295,13 @@ func (in *inliner) inlinableWith(fd *ast.FuncDecl, obj *types.Func, allowRecover
 		case *ast.DeferStmt:
 			// inlinable only in tail position of the caller (the deferred calls then run at the same moment)
 			in.hasDefer[obj] = true
+			// a deferred call may write the helper's named results after its return statement ran; the
+			// caller has no such result slots, so the helper keeps its own frame
+			for i := 0; i < sig.Results().Len(); i++ {
+				if nm := sig.Results().At(i).Name(); nm != "" && nm != "_" {
+					ok = false
+				}
+			}
 		case *ast.GoStmt, *ast.LabeledStmt, *ast.SelectStmt:
 			ok = false
 		case *ast.ReturnStmt:
